@@ -108,9 +108,10 @@ def read_raw(case, imp):
     return {'nodes': nodes, 'edges': edges}
 
 
-def run_query(imp, q):
+def run_query(imp, q, g=None):
     kind, gid = q[0], q[1]
-    g = imp.graph_class(graph_id=gid, importer=imp)
+    if g is None:
+        g = imp.graph_class(graph_id=gid, importer=imp)
     try:
         if kind == 'first':
             return {'ok': sort_ids(g.get_first_neighbor(node_id=q[2], rel=q[3], node_label=q[4]))}
@@ -762,11 +763,285 @@ class ExhaustiveStream(QueryStream):
                 + [c for c in exhaustive_cases(4, 'joint', 'small', sorted_classes_from=4) if len(c['graphs'][0]['nodes']) == 4])
 
 
+
+# ----------------------------------------------------------------------------------------------
+# query histories: two live graph objects per graph id, queries and mutations interleaved through either
+# ----------------------------------------------------------------------------------------------
+
+def run_mutation(imp, objs2, step):
+    """['add_node', obj, gid, nid, cls] | ['add_link', obj, gid, a, b, rel] | ['del_node', obj, gid, nid] |
+    ['merge', obj, gid, nid, other_gid]; returns None or the class name of the exception"""
+    kind, o, gid = step[0], step[1], step[2]
+    g = objs2[gid][o]
+    try:
+        if kind == 'add_node':
+            g.add_node(node_id=step[3], label=step[4], props={'Name': 'name-' + step[3]})
+        elif kind == 'add_link':
+            g.add_link(node_a=step[3], rel=step[5], node_b=step[4])
+        elif kind == 'del_node':
+            g.delete_node(node_id=step[3])
+        elif kind == 'merge':
+            g.merge_nodes(node_id=step[3], other_graph=objs2[step[4]][o])
+        else:
+            raise ValueError(kind)
+    except Exception as e:
+        return type(e).__name__
+    return None
+
+
+def random_history(rng, backend):
+    id_pool = ['n%d' % i for i in range(10)]
+    classes = rng.choice([CLASSES, ['NetworkService', 'ConnectionPoint', 'Link'], ['NetworkNode', 'NetworkService', 'ConnectionPoint']])
+    rels = rng.choice([['has', 'connects'], ['has', 'connects', 'depends'], ['connects']])
+    ng = rng.choice([1, 2, 2])
+    graphs = [random_graph(rng, 'g%d' % gi, rng.choice([2, 3, 4, 4, 5, 6]), classes, rels, id_pool,
+                           rng.choice(['tree', 'tree', 'sparse', 'fim'])) for gi in range(ng)]
+    for g in graphs:
+        g['links'] = [l for l in g['links'] if l[0] != l[1]]
+    g0 = graphs[0]
+    ids = [n[0] for n in g0['nodes']]
+    cls_now = {n[0]: n[1] for n in g0['nodes']}
+    spare = [i for i in id_pool if i not in ids]
+    # a fixed pool of questions that is asked again and again
+    pc, pr = (lambda: rng.choice(classes)), (lambda: rng.choice(rels))
+    ids0 = list(ids)
+    pn = lambda: rng.choice(ids0) if rng.random() > 0.08 else spare[0]
+    pool = []
+    for _ in range(2):
+        a, z = pn(), pn()
+        pool.append(['hops', 'g0', a, z, rng.sample(ids, rng.choice([0, 0, 1])), rng.choice([100, 100, 3])])
+        pool.append(['sp', 'g0', a, z, rng.choice([None] + rels)])
+    pool.append(['hops', 'g0', ids[0], ids[-1], [], 100])
+    pool.append(['first', 'g0', pn(), pr(), pc()])
+    pool.append(['second', 'g0', pn(), pr(), pc(), pr(), pc()])
+    pool.append(['parent', 'g0', pn(), pr(), pc()])
+    pool.append(['peers', 'g0', pn()])
+    pool.append(['nodecps', 'g0', pn()])
+    if ng > 1:
+        pool.append(['first', 'g1', rng.choice(graphs[1]['nodes'])[0], pr(), pc()])
+    asked = set(x for q in pool if q[1] == 'g0' for x in q[2:4] if isinstance(x, str) and x.startswith('n'))
+    steps = []
+    nlinks = len(g0['links'])
+    for _ in range(rng.choice([10, 16, 24, 32])):
+        u = rng.random()
+        o = rng.randrange(2)
+        live = [i for i in ids if i in cls_now]
+        if u < 0.62 or len(live) < 2:
+            steps.append(['q', o, rng.choice(pool)])
+        elif u < 0.82 and nlinks < 11:
+            a, b = rng.sample(live, 2)
+            steps.append(['add_link', o, 'g0', a, b, pr()])
+            nlinks += 1
+        elif u < 0.90 and spare and len(live) < 7:
+            nid = spare.pop(0)
+            ids.append(nid)
+            cls_now[nid] = pc()
+            steps.append(['add_node', o, 'g0', nid, cls_now[nid]])
+        elif u < 0.97 and len(live) > 2:
+            quiet = [i for i in live if i not in asked]
+            nid = rng.choice(quiet) if quiet and rng.random() < 0.75 else rng.choice(live)
+            del cls_now[nid]
+            steps.append(['del_node', o, 'g0', nid])
+        elif ng > 1 and backend == 'joint':
+            common = [i for i in live if i in [n[0] for n in graphs[1]['nodes']]]
+            if common and not any(st[0] == 'merge' for st in steps):
+                steps.append(['merge', o, 'g0', rng.choice(common), 'g1'])
+        else:
+            steps.append(['q', o, rng.choice(pool)])
+    # end with every question once more through both objects
+    for q in pool:
+        steps.append(['q', 0, q])
+        steps.append(['q', 1, q])
+    return {'backend': backend, 'graphs': graphs, 'history': steps, 'queries': []}
+
+
+class HistoryStream(QueryStream):
+    name = 'history'
+    case_type = 'list case'
+    check_fn = 'check_history'
+    header = QueryStream.header.replace('Model.Query6Check.', 'Model.Query6Check Model.Query6Hist.')
+    shard = 60
+    rule = ('query HISTORIES on 1-2 small graphs (2-7 nodes): TWO live graph objects per graph id (constructor + cast_graph), '
+            '10-32 steps, each through either object: a question from a fixed pool of ~11 (all query kinds, asked again and '
+            'again, and all once more through both objects at the end) or a mutation (add_link incl. relation overwrite, '
+            'add_node, delete_node, merge_nodes); the store is read back after every mutation and EVERY answer is compared '
+            'with the model / judged by the oracle on the store content at that moment; non-trivial = at least one mutation '
+            'between two askings of the same question; distinct by (graphs, history)')
+
+    def gen(self, rng, tier):
+        n = 150 if tier == 'quick' else 3000
+        return [random_history(rng, 'disjoint' if i % 4 == 3 else 'joint') for i in range(n)]
+
+    def corpus(self):
+        out = []
+        for p in sorted(glob.glob(os.path.join(VERIF, 'corpus', 'C06', 'history', '*.json'))):
+            with open(p) as f:
+                out.append(json.load(f))
+        return out
+
+    def observe(self, case):
+        try:
+            imp, objs = build_store(case)
+            objs2 = {}
+            for gid, g in objs.items():
+                second = imp.cast_graph(graph_id=gid) if case.get('backend', 'joint') == 'joint' \
+                    else imp.graph_class(graph_id=gid, importer=imp)
+                objs2[gid] = [g, second]
+            raw = read_raw(case, imp)
+        except Exception as e:
+            return {'build_err': type(e).__name__ + ': ' + str(e)[:200], 'segments': [], 'mut_errs': []}
+        segs = [{'raw': raw, 'queries': [], 'results': [], 'via': []}]
+        mut_errs = []
+        for i, st in enumerate(case['history']):
+            if st[0] == 'q':
+                q = st[2]
+                g = objs2[q[1]][st[1]] if q[1] in objs2 else None
+                segs[-1]['queries'].append(q)
+                segs[-1]['via'].append(st[1])
+                segs[-1]['results'].append(run_query(imp, q, g))
+            else:
+                err = run_mutation(imp, objs2, st)
+                if err:
+                    mut_errs.append([i, err])
+                segs.append({'raw': read_raw(case, imp), 'queries': [], 'results': [], 'via': [], 'after_step': i})
+        return {'segments': segs, 'mut_errs': mut_errs}
+
+    def to_coq(self, case, obs):
+        out = []
+        for sg in obs['segments']:
+            if sg['queries']:
+                qs = ['(' + c_query(q, r) + ')' for q, r in zip(sg['queries'], sg['results'])]
+                out.append('(%s, %s, %s)' % (VOCAB, c_store(sg['raw']), clist(qs)))
+        return clist(out)
+
+    def failures(self, case, obs):
+        if 'build_err' in obs:
+            return [((-1, -1), 'building the graphs failed: ' + obs['build_err'])]
+        out = []
+        for si, sg in enumerate(obs['segments']):
+            for qi, (q, r) in enumerate(zip(sg['queries'], sg['results'])):
+                try:
+                    why = oracle_query(sg['raw'], q, r)
+                except Exception as e:
+                    why = 'result %r of %r is malformed (%s)' % (r, q, type(e).__name__)
+                if why:
+                    out.append(((si, qi), why))
+        return out
+
+    def oracle(self, case, obs):
+        fs = self.failures(case, obs)
+        if not fs:
+            return None
+        new = [f for f in fs if not f[1].startswith(KNOWN_TAG)]
+        (si, qi), why = (new or fs)[0]
+        if si < 0:
+            return why
+        sg = obs['segments'][si]
+        return '%s [after %d mutation(s), through graph object %d: %r; store content then: %r]' % (
+            why, si, sg['via'][qi], sg['queries'][qi], sg['raw'])
+
+    def key(self, case, obs):
+        seen, mutated_between = {}, False
+        nmut = 0
+        for st in case['history']:
+            if st[0] == 'q':
+                k = json.dumps(st[2])
+                if k in seen and seen[k] < nmut:
+                    mutated_between = True
+                seen[k] = nmut
+            else:
+                nmut += 1
+        return stable_hash([case['graphs'], case['history']]) if mutated_between else None
+
+    def describe(self, case, obs):
+        return {'graphs': case['graphs'], 'backend': case.get('backend'), 'history': case['history'][:12],
+                'segments': len(obs['segments']), 'failed_mutations': obs['mut_errs'][:3]}
+
+    def histogram(self, cases, obs):
+        h = {'histories': len(cases), 'steps': 0, 'questions': 0, 'mutations': {}, 'failed_mutations': 0,
+             'questions_repeated_after_a_mutation': 0, 'answers_changed_by_a_mutation': 0, 'through_object': {'0': 0, '1': 0},
+             'kinds': {}, 'raised': 0, 'nonempty_results': 0, 'known_finding_hits': 0, 'backend': {}}
+        for c, o in zip(cases, obs):
+            h['steps'] += len(c['history'])
+            b = c.get('backend', 'joint')
+            h['backend'][b] = h['backend'].get(b, 0) + 1
+            h['failed_mutations'] += len(o['mut_errs'])
+            for st in c['history']:
+                if st[0] != 'q':
+                    h['mutations'][st[0]] = h['mutations'].get(st[0], 0) + 1
+            last = {}
+            for si, sg in enumerate(o['segments']):
+                for q, r, v in zip(sg['queries'], sg['results'], sg['via']):
+                    h['questions'] += 1
+                    h['through_object'][str(v)] += 1
+                    h['kinds'][q[0]] = h['kinds'].get(q[0], 0) + 1
+                    h['raised'] += 'err' in r
+                    h['nonempty_results'] += bool(r.get('ok'))
+                    k = json.dumps(q)
+                    if k in last and last[k][0] < si:
+                        h['questions_repeated_after_a_mutation'] += 1
+                        if last[k][1] != r and 'ok' in r and 'ok' in last[k][1] and \
+                                (q[0] not in ('sp', 'hops') or len(r['ok']) != len(last[k][1]['ok'])):
+                            h['answers_changed_by_a_mutation'] += 1
+                    last[k] = (si, r)
+            h['known_finding_hits'] += sum(1 for f in self.failures(c, o) if f[1].startswith(KNOWN_TAG))
+        return h
+
+    def shrink(self, case, failing):
+        case = json.loads(json.dumps(case))
+        failing0 = failing
+        failing = lambda c: 'build_err' not in self.observe(c) and failing0(c)
+        # 1. cut the history after the first failing question
+        o = self.observe(case)
+        fs = [f for f in self.failures(case, o) if not f[1].startswith(KNOWN_TAG)] or self.failures(case, o)
+        if fs and fs[0][0][0] >= 0:
+            si, qi = fs[0][0]
+            seg, k, cut = 0, 0, None
+            for i, st in enumerate(case['history']):
+                if st[0] == 'q':
+                    if seg == si and k == qi:
+                        cut = i
+                        break
+                    k += 1
+                else:
+                    seg, k = seg + 1, 0
+            if cut is not None:
+                c2 = dict(case, history=case['history'][:cut + 1])
+                if failing(c2):
+                    case = c2
+        # 2. drop steps, then graphs / links / nodes
+        changed = True
+        while changed:
+            changed = False
+            for i in range(len(case['history']) - 1, -1, -1):
+                c2 = dict(case, history=case['history'][:i] + case['history'][i + 1:])
+                if c2['history'] and failing(c2):
+                    case, changed = c2, True
+            for gi in range(len(case['graphs']) - 1, -1, -1):
+                c2 = dict(case, graphs=case['graphs'][:gi] + case['graphs'][gi + 1:])
+                if c2['graphs'] and failing(c2):
+                    case, changed = c2, True
+            for gi in range(len(case['graphs'])):
+                g = case['graphs'][gi]
+                for li in range(len(g['links']) - 1, -1, -1):
+                    g2 = dict(case['graphs'][gi], links=case['graphs'][gi]['links'][:li] + case['graphs'][gi]['links'][li + 1:])
+                    c2 = dict(case, graphs=case['graphs'][:gi] + [g2] + case['graphs'][gi + 1:])
+                    if failing(c2):
+                        case, changed = c2, True
+                for ni in range(len(case['graphs'][gi]['nodes']) - 1, -1, -1):
+                    gg = case['graphs'][gi]
+                    g2 = dict(gg, nodes=gg['nodes'][:ni] + gg['nodes'][ni + 1:])
+                    c2 = dict(case, graphs=case['graphs'][:gi] + [g2] + case['graphs'][gi + 1:])
+                    if g2['nodes'] and failing(c2):
+                        case, changed = c2, True
+        return case
+
+
 class C06(Check):
     pid = 'C06'
     translators = ['gen_query6']
-    model_targets = ['Model/Query6.vo', 'Model/Query6Check.vo']
-    streams = [RandomStream(), ExhaustiveStream()]
+    model_targets = ['Model/Query6.vo', 'Model/Query6Check.vo', 'Model/Query6Hist.vo']
+    streams = [RandomStream(), ExhaustiveStream(), HistoryStream()]
     trusted_base = [
         'Coq 8.16.1 kernel (coqc), vm_compute for the correspondence evaluation; no native_compute',
         'Print Assumptions of every C06 theorem: Closed under the global context (no axioms)',
